@@ -299,7 +299,7 @@ def random_history(nops):
                 else:
                     v = rand_value(at)
                     prs += [str(at), str(v)]
-            emit(" ".join([f"newattrs {i} {n}"] + prs), 60)
+            emit(" ".join([f"mkattrs {i} {n}"] + prs), 60)
 
 NH = 1200 if a.tier == "quick" else 6000
 for _ in range(NH):
